@@ -20,6 +20,7 @@ structure Entry where
 
 inductive Ty where
   | uint | int | bool | null | tstr | bstr | hex | emptyBstr | bchar
+  | rawBstr                      -- byte string rendered as {"raw": hex}
   | enum (es : List (String × Int))
   | bitfield (bit : Cls) (len : Nat)
   | keyValue (es : List Entry) (embedded : Option String)   -- name of the embedded entry (`suit-integrated-payloads`)
@@ -78,6 +79,11 @@ def Obj.sizeDict : List (String × Obj) → Nat
   | (_, v) :: xs => 1 + v.size + Obj.sizeDict xs
 end
 
+/-- `k.replace("*", r)` and `"*" in k` on metadata keys (list-based so that the kernel can evaluate them) -/
+def replaceStar (k r : String) : String :=
+  String.ofList (k.toList.flatMap (fun c => if c = '*' then r.toList else [c]))
+def hasStar (k : String) : Bool := k.toList.contains '*'
+
 /-- how a scalar leaf is rendered by `to_obj` -/
 inductive Render where
   | plain        -- the value itself (int, bool, None, str)
@@ -131,11 +137,22 @@ def Node.toVal : Node → Cbor
   | .alt _ _ n => n.toVal
   | .tagged t _ n => .tag t n.toVal
   | .wrapped n => .bstr n.toBytes
-/-- `node.to_cbor()` -/
+/-- `node.to_cbor()`: the encoding of `toVal`, except that `SuitEmptyBstr` yields no bytes and a union passes its
+child's bytes through (written per constructor so that the recursion is structural) -/
 def Node.toBytes : Node → Bytes
   | .emptyRaw => []
   | .alt _ _ n => n.toBytes
-  | n => enc n.toVal
+  | .leaf v _ => enc v
+  | .bchar s => enc (.bstr (utf8 s))
+  | .enumv _ id => enc (Cbor.ofInt id)
+  | .bits bs => enc (Cbor.ofInt (sumBits bs))
+  | .kv es => enc (.map (kvPairs es []))
+  | .kvTuple es => enc (.arr (kvFlat es))
+  | .kvu es => enc (.map (kvuPairs es []))
+  | .tuple _ vals => enc (.arr (valList vals))
+  | .list group xs => enc (.arr (if group then flatList xs else valList xs))
+  | .tagged t _ n => enc (.tag t n.toVal)
+  | .wrapped n => enc (.bstr n.toBytes)
 def valList : List Node → List Cbor
   | [] => []
   | n :: ns => n.toVal :: valList ns
